@@ -29,7 +29,7 @@ type Machine struct {
 	Vars                       map[string]machine.Value
 	UnresolvedResources        []program.Resource
 	Resources                  []machine.Value // Constants and Variables
-	UnresolvedResourceBalances map[string]int
+	UnresolvedResourceBalances map[int]string  // resource index of a balance variable -> account address
 	resolveCalled              bool
 	Balances                   map[machine.AccountAddress]map[machine.Asset]*machine.MonetaryInt // keeps track of balances throughout execution
 	Stack                      []machine.Value
@@ -62,7 +62,7 @@ func NewMachine(p program.Program) *Machine {
 		Postings:                   make([]Posting, 0),
 		TxMeta:                     map[string]machine.Value{},
 		AccountsMeta:               map[machine.AccountAddress]map[string]machine.Value{},
-		UnresolvedResourceBalances: map[string]int{},
+		UnresolvedResourceBalances: map[int]string{},
 	}
 
 	return &m
@@ -425,11 +425,18 @@ func (m *Machine) tick() (bool, error) {
 	case program.OP_SAVE:
 		a := pop[machine.AccountAddress](m)
 		v := m.popValue()
+		// Only the balances used as sources by the program are tracked:
+		// saving from a balance which is not tracked has nothing to protect.
+		accBalances, ok := m.Balances[a]
 		switch v := v.(type) {
 		case machine.Asset:
-			m.Balances[a][v] = machine.Zero
+			if ok {
+				accBalances[v] = machine.Zero
+			}
 		case machine.Monetary:
-			m.Balances[a][v.Asset] = m.Balances[a][v.Asset].Sub(v.Amount)
+			if ok {
+				accBalances[v.Asset] = accBalances[v.Asset].Sub(v.Amount)
+			}
 		default:
 			panic(fmt.Errorf("invalid value type: %T", v))
 		}
@@ -480,7 +487,7 @@ func (m *Machine) ResolveBalances(ctx context.Context, store Store) error {
 
 	m.Balances = make(map[machine.AccountAddress]map[machine.Asset]*machine.MonetaryInt)
 
-	for address, resourceIndex := range m.UnresolvedResourceBalances {
+	for resourceIndex, address := range m.UnresolvedResourceBalances {
 		monetary := m.Resources[resourceIndex].(machine.Monetary)
 		balance, err := store.GetBalance(ctx, address, string(monetary.Asset))
 		if err != nil {
@@ -581,7 +588,7 @@ func (m *Machine) ResolveResources(ctx context.Context, store Store) ([]string, 
 			acc, _ := m.getResource(res.Account)
 			address := string((*acc).(machine.AccountAddress))
 			involvedAccountsMap[machine.Address(idx)] = address
-			m.UnresolvedResourceBalances[address] = idx
+			m.UnresolvedResourceBalances[idx] = address
 
 			ass, ok := m.getResource(res.Asset)
 			if !ok {
